@@ -11,6 +11,7 @@ Decides (each a necessary condition, together far from sufficient):
   ASSERT-FALSE  unconditional COLA_ASSERT(false) sites are only in enumerated "cannot happen" arms
 """
 import json
+import re
 import os
 
 from ..astq import (strip, strip_casts, written_field, norm, member_of_this, writes, calls, call_args, call_object,
@@ -442,14 +443,140 @@ def rule_action_identity(chk, prog):
     (r.bad if bad else r.ok)("ActionInfo::operator==", fn.where(), bad or "%d pairs" % n)
 
 
+_NODE_BASED = re.compile(r"^(const )?std::(__cxx11::)?(list|map|set|multimap|multiset|forward_list)<")
+_ANY_CONT = re.compile(r"^(const )?std::(__cxx11::)?(list|vector|deque|map|set|multimap|multiset|unordered_map|unordered_set|forward_list)<")
+_SHRINK = ("erase", "clear", "pop_back", "pop_front", "remove", "remove_if", "resize", "assign", "swap", "unique", "splice", "merge", "shrink_to_fit")
+
+
+def rule_element_address(chk, prog):
+    r = chk.rule("ELEMENT-ADDRESS-STABLE", "member containers whose element addresses are handed out by a function (`return &c.back()...`) are node-based "
+                 "(growth does not move elements) and lose elements only at the reviewed sites of tables/element_address.json -- a pointer "
+                 "into an erased node is written through later (use after free)", floor=2)
+    table = json.load(open(os.path.join(VERIF, "tables", "element_address.json")))["fields"]
+    handed = {}
+    for f in prog.all_functions():
+        if f.body is None or "/tests/" in f.file or f.tmpl == "pattern":
+            continue
+        for n in f.nodes():
+            if n.get("k") != "ReturnStmt" or not n.get("ch"):
+                continue
+            e = strip_casts(n["ch"][0])
+            if e is None or e.get("k") != "UnaryOperator" or e.get("op") != "&":
+                continue
+            inner = strip_casts(e["ch"][0])
+            # the address of an element: the operand goes through a call on / subscript of a member container (not the container itself)
+            if inner is not None and inner.get("k") == "MemberExpr" and inner.get("rk") == "Field" and _ANY_CONT.match(str(inner.get("t", ""))):
+                continue
+            for x in walk(e["ch"][0]):
+                if x.get("k") == "MemberExpr" and x.get("rk") == "Field" and _ANY_CONT.match(str(x.get("t", ""))):
+                    base = strip_casts(x["ch"][0]) if x.get("ch") else None
+                    if base is not None and base.get("k") == "CXXThisExpr":
+                        handed.setdefault(str(x.get("ref")), (str(x.get("t")), f, n))
+    for fld in sorted(set(handed) | set(table)):
+        r.count()
+        if fld not in handed:
+            r.ok(fld, "", "no element address is handed out any more")
+            continue
+        t, f0, n0 = handed[fld]
+        if fld not in table:
+            r.bad(fld, f0.loc(n0), "%s returns the address of an element of `%s` (%s): not a reviewed hand-out" % (f0.q, fld, t[:40]))
+            continue
+        if not _NODE_BASED.match(t):
+            r.bad(fld, f0.loc(n0), "`%s` is a %s: inserting elements moves the ones whose addresses were handed out" % (fld, t[:40]))
+            continue
+        bad = None
+        for f in prog.all_functions():
+            if f.body is None or "/tests/" in f.file or f.tmpl == "pattern" or f.kind == "dtor":
+                continue
+            for c in calls(f):
+                if c.get("k") != "CXXMemberCallExpr":
+                    continue
+                o = call_object(c)
+                o = strip_casts(o) if o is not None else None
+                if o is None or o.get("k") != "MemberExpr" or str(o.get("ref")) != fld:
+                    continue
+                m = str(c.get("cname", "")).rsplit("::", 1)[-1]
+                if m in _SHRINK and f.q not in table[fld]["removals"]:
+                    bad = bad or (f.loc(c), "%s removes elements from `%s` (%s); element addresses handed out by %s stay in use (%s)" % (
+                        f.q, fld, m, f0.q.split("::")[-1], table[fld]["why_handed_out"][:110]))
+        (r.bad(fld, bad[0], bad[1]) if bad else r.ok(fld, f0.loc(n0), "reviewed removals: %s" % (sorted(table[fld]["removals"]) or "none")))
+
+
+def rule_split_halves(chk, prog):
+    """IncSolver::satisfy: the two blocks made by a split are each handed to the block list or freed -- exactly once."""
+    from ..microai.interp import Interp, Obj, Vec, Box, Oracle, Unsupported, AssertFail, default_obj
+    r = chk.rule("SPLIT-HALVES-OWNED", "IncSolver::satisfy (both solver copies), the statement that follows a successful splitBetween(.., lb, rb), "
+                 "interpreted for `v satisfied by the split` / `still violated` and for either half being the larger one: each of the two new "
+                 "blocks is afterwards either in the block list (Blocks::insert) or deleted, never both, never neither (a half that is "
+                 "neither leaks with its variable vector; one that is both is used after free)", floor=8)
+    for ns in ("vpsc", "Avoid"):
+        fn = prog.fn(ns + "::IncSolver::satisfy")
+        ifs = [n for n in fn.nodes() if n.get("k") == "IfStmt" and norm(n["cond"]).replace(" ", "") in ("(v.slack()>=0)", "(v.slack()>=0.0)")
+               and any(c.get("cname", "").endswith("Blocks::insert") for c in walk(n))]
+        if len(ifs) != 1:
+            raise AnalysisBroken("%s::IncSolver::satisfy: the statement after the split was not recognised" % ns)
+        stmt = ifs[0]
+        dids = {}
+        for d in fn.nodes():
+            if d.get("k") == "VarDecl" and d.get("name") in ("lb", "rb", "v"):
+                dids.setdefault(d["name"], d["did"])
+        if set(dids) != {"lb", "rb", "v"}:
+            raise AnalysisBroken("%s::IncSolver::satisfy: locals lb / rb / v not found" % ns)
+        for satisfied in (True, False):
+            for left_larger in (True, False):
+                lb = Obj(ns + "::Block", {"deleted": False, "_tag": "lb", "_n": 3 if left_larger else 1})
+                rb = Obj(ns + "::Block", {"deleted": False, "_tag": "rb", "_n": 1 if left_larger else 3})
+                v = Obj(ns + "::Constraint", {"active": False})
+                inserted = []
+                it = Interp(prog, Oracle([]))
+                it.vhooks[ns + "::Constraint::slack"] = lambda it_, recv, args, s_=satisfied: (1 if s_ else -1)
+                it.vhooks[ns + "::Blocks::insert"] = lambda it_, recv, args, ins=inserted: ins.append(args[0])
+
+                def merge(it_, recv, args):
+                    a, b = recv, args[0]
+                    keep, gone = (a, b) if a.f["_n"] >= b.f["_n"] else (b, a)
+                    gone.f["deleted"] = True
+                    return keep
+                it.vhooks[ns + "::Block::merge"] = merge
+                solver = default_obj(prog, ns + "::IncSolver", {})
+                solver.f["bs"] = Obj(ns + "::Blocks", {})
+                solver.f["inactive"] = Vec([], ns + "::Constraint *")
+                env = {dids["lb"]: Box(lb), dids["rb"]: Box(rb), dids["v"]: Box(v), "this": solver}
+                inst = "%s::IncSolver::satisfy, v %s, %s half larger" % (ns, "satisfied by the split" if satisfied else "still violated", "left" if left_larger else "right")
+                r.count()
+                try:
+                    it.ex(stmt, env)
+                except Unsupported as e:
+                    raise AnalysisBroken("%s outside the interpreter subset: %s" % (inst, e))
+                except AssertFail as e:
+                    r.bad(inst, fn.loc(stmt), "assertion fails: %s" % e)
+                    continue
+                deleted = it.__dict__.get("deleted", [])
+                bad = None
+                for b in (lb, rb):
+                    ni = sum(1 for x in inserted if x is b)
+                    nd = sum(1 for x in deleted if x is b)
+                    if ni + nd == 0:
+                        bad = bad or "block %s is neither put into the block list nor deleted: it leaks" % b.f["_tag"]
+                    elif ni and nd:
+                        bad = bad or "block %s is deleted although it is in the block list" % b.f["_tag"]
+                    elif ni > 1 or nd > 1:
+                        bad = bad or "block %s is %s twice" % (b.f["_tag"], "inserted" if ni > 1 else "deleted")
+                    elif ni and b.f["deleted"]:
+                        bad = bad or "the absorbed block %s is put into the block list" % b.f["_tag"]
+                (r.bad if bad else r.ok)(inst, fn.loc(stmt), bad or "")
+
+
 def run(chk):
     prog = chk.load()
     cg = CallGraph(prog)
-    rule_dtor_drain(chk, prog)
-    rule_init(chk, prog)
-    rule_own_dtor(chk, prog, cg)
-    rule_del_guard(chk, prog)
-    rule_erase_advance(chk, prog)
-    rule_local_escape(chk, prog)
-    rule_buffer_fit(chk, prog)
-    rule_action_identity(chk, prog)
+    chk.guard(rule_dtor_drain, chk, prog)
+    chk.guard(rule_init, chk, prog)
+    chk.guard(rule_own_dtor, chk, prog, cg)
+    chk.guard(rule_del_guard, chk, prog)
+    chk.guard(rule_erase_advance, chk, prog)
+    chk.guard(rule_local_escape, chk, prog)
+    chk.guard(rule_buffer_fit, chk, prog)
+    chk.guard(rule_action_identity, chk, prog)
+    chk.guard(rule_element_address, chk, prog)
+    chk.guard(rule_split_halves, chk, prog)
